@@ -85,11 +85,19 @@ def strategy(tier):
     return cases(tier)
 
 
+class _Quiet:
+    def cls(self, *a, **k):
+        pass
+
+    def skip(self, *a, **k):
+        pass
+
+    def nt(self, *a, **k):
+        pass
+
+
 def check(case, rec):
-    import biom
-    from biom.exception import DisjointIDError
     axis = case["axis"]
-    inv = "observation" if axis == "sample" else "sample"
     specs = [dict(s) for s in case["operands"]]
     if case["overlap"] is True:
         # make the last operand share its first concat-axis ID with the first
@@ -97,6 +105,33 @@ def check(case, rec):
         s = specs[-1]
         s[key] = [specs[0][key][0]] + list(s[key][1:])
     tabs = [gen.build(s, rec=rec) for s in specs]
+    _check(case, rec, tabs)
+    if not case["overlap"] and len(specs[0]["obs"]) % 3 == 0 and \
+            not any(t.is_empty() for t in tabs):
+        # the same operand objects concatenated again after in-place edits
+        # (other-axis IDs renamed so that their sort order changes, values
+        # doubled): nothing is remembered from the first call
+        inv = "observation" if axis == "sample" else "sample"
+        for t in tabs:
+            ids = [str(i) for i in t.ids(axis=inv)]
+            flip = {i: "%s-%s" % (chr(ord("z") - k % 26), i)
+                    for k, i in enumerate(ids)}
+            t.update_ids(flip, axis=inv, inplace=True)
+            t.transform(lambda v, i, md: v * 2, axis=axis, inplace=True)
+        rec.cls("concatenated-again-after-in-place-edits")
+        try:
+            _check(case, _Quiet(), tabs)
+        except Violation as v:
+            raise Violation(v.sub, "concatenated again after in-place edits "
+                            "(other-axis IDs renamed, values doubled): " +
+                            v.msg)
+
+
+def _check(case, rec, tabs):
+    import biom
+    from biom.exception import DisjointIDError
+    axis = case["axis"]
+    inv = "observation" if axis == "sample" else "sample"
     snaps = [observe.snapshot(t) for t in tabs]
     refs = [Ref.from_snapshot(s) for s in snaps]
     rec.cls("entry:" + case["entry"])
@@ -186,6 +221,20 @@ def check(case, rec):
         if (have or None) != (want or None):
             bad("metadata", "%s id %r carries %r, its own metadata is %r" %
                 (axis, a_id, have, want))
+    # other-axis metadata stays with its ID: what an ID carries in the
+    # result is what some operand holding that ID carries for it
+    imd = got[ikey + "_md"]
+    for i_pos, i_id in enumerate(got[ikey]):
+        have = (imd[i_pos] if imd is not None else None) or None
+        cands = []
+        for rf in refs:
+            if i_id in rf.ids(inv):
+                m_ = rf.md(inv)
+                cands.append((m_[rf.ids(inv).index(i_id)]
+                              if m_ is not None else None) or None)
+        if have not in cands:
+            bad("other-axis-metadata", "%s id %r carries %r; the operands "
+                "holding it carry %r" % (inv, i_id, have, cands))
     tot = sum(x for row in got["rows"] for x in row)
     want_tot = sum(x for rf in refs for row in rf.rows for x in row)
     if tot != want_tot and case.get("values") != "frac":
@@ -202,3 +251,24 @@ def check(case, rec):
     rec.cls("operand-lacks-other-axis-id", lacks)
     rec.cls("different-other-axis-order", differ)
     rec.nt(len(refs) >= 2 and lacks and differ and has_nz)
+
+
+def _many(k, entry, axis="sample"):
+    """k one-vector operands (operand counts past 32 / 64)."""
+    ops_ = []
+    for j in range(k):
+        other = ["U%d" % ((j + q) % 5) for q in range(3)]
+        ax = ["t%d" % j]
+        obs, samp = (other, ax) if axis == "sample" else (ax, other)
+        rows = [[float(j * 3 + q + 1)] for q in range(3)] \
+            if axis == "sample" else [[float(j * 3 + q + 1) for q in range(3)]]
+        ops_.append({"obs": obs, "samp": samp, "rows": rows, "type": None,
+                     "form": "dense", "history": [], "obs_md": None,
+                     "samp_md": None})
+    return {"operands": ops_, "axis": axis, "entry": entry, "overlap": False,
+            "values": "int", "positional": False}
+
+
+REGRESSIONS = [_many(33, "function"), _many(40, "method_list"),
+               _many(65, "function", "observation"),
+               _many(97, "function")]
